@@ -107,6 +107,24 @@ let op_of_tokens zero toks : (z, z) cop =
   | ["advance"; dt] -> OAdvance (z dt)
   | _ -> failwith ("bad op: " ^ String.concat " " toks)
 
+(* ---------- parsing results (check mode) ---------- *)
+let res_of_tokens toks : (z, z) cres =
+  let z = z_of_string in
+  let b s = (s = "1") in
+  match toks with
+  | ["unit"] -> CUnit
+  | ["val"; v; ok] -> CVal (z v, b ok)
+  | ["valexp"; v; e; ok] -> CValExp (z v, z e, b ok)
+  | ["valttl"; v; t; ok] -> CValTTL (z v, z t, b ok)
+  | ["nat"; n] -> CNat (nat_of_int (int_of_string n))
+  | ["dur"; d] -> CDur (z d)
+  | ["cb"; c] -> CCb (cb_of_string c)
+  | "list" :: rest ->
+      let ps = match rest with [] -> [] | [s] -> String.split_on_char ',' s | _ -> failwith "bad list" in
+      CList (List.map (fun p -> match String.split_on_char ':' p with
+                                | [k; v] -> (z k, z v) | _ -> failwith "bad pair") (List.filter (fun p -> p <> "") ps))
+  | _ -> failwith ("bad result: " ^ String.concat " " toks)
+
 (* ---------- main loop ---------- *)
 let split s = List.filter (fun t -> t <> "") (String.split_on_char ' ' s)
 
@@ -122,6 +140,8 @@ let () =
   let opts = ref [] in
   let st = ref None in
   let idx = ref 0 in
+  let check_mode = Array.length Sys.argv > 1 && Sys.argv.(1) = "--check" in
+  let pending = ref None in
   let start b =
     st := Some b.xb_state; idx := 0;
     Printf.printf "built janitor=%s interval=%s presize=%s dflt=%s cb=%s\n" (b01 b.xb_janitor)
@@ -147,10 +167,22 @@ let () =
       | ["OPT"; "mincap"; n] -> opts := XMinCap (z_of_string n) :: !opts
       | "NEWDEFAULT" :: d :: i :: cbs ->
           start (x_newdefault !generic !now0 (z_of_string d) (z_of_string i) (List.map cb_of_string cbs))
+      | ["OP"; "dump"] when check_mode -> ensure_started (); Printf.printf "%d ok\n" !idx; incr idx
       | ["OP"; "dump"] ->
           ensure_started ();
           (match !st with Some s -> Printf.printf "%d " !idx; dump_state s | None -> ());
           incr idx
+      | "OP" :: toks when check_mode ->
+          ensure_started ();
+          pending := Some (op_of_tokens !zero toks)
+      | "RES" :: toks ->
+          (match !st, !pending with
+           | Some s, Some op ->
+               let r = res_of_tokens toks in
+               Printf.printf "%d %s\n" !idx (if x_spec_okb !zero s op r then "ok" else "BAD");
+               st := Some (x_spec_next !zero s op);
+               pending := None; incr idx
+           | _ -> failwith "RES without OP")
       | "OP" :: toks ->
           ensure_started ();
           (match !st with
